@@ -6,7 +6,7 @@ Go timer semantics, goroutine/descriptor release and the upgrade paths are measu
 import os
 import time
 
-from . import core
+from . import core, cs_stop
 
 
 def retry_run(sc, rs, tier, seed):
@@ -106,7 +106,7 @@ PROPS = {
                     "commit (c14_bounded_queue_partial_counterexample documents the pinned behaviour)",
             "technique": "Lean 4 proof (invariants over two transition systems, one of them an instance of JobQ) + differential "
                          "correspondence with gates at the model's step granularity + sampled real-socket runs"},
-        "lean": ["NbioVerif.Properties.C14"], "drivers": ["wscbdrv"], "harness": ["hwscb"],
+        "lean": ["NbioVerif.Properties.C14"], "drivers": ["wscbdrv"], "harness": ["hwscb"], "cs": cs_stop.C14_CS,
         "runs": [WSCB_RUN],
         "oracles": ["c14-"],
         "rule": "cb case = schedule of upgrade / message arrival / close / callback release on the real poller-driven path; wq case "
@@ -136,7 +136,7 @@ PROPS = {
                     "notifications are not required at Stop return",
             "technique": "Lean 4 proof (two invariants + termination measure over a transition system) + differential "
                          "correspondence with gated callbacks + real-engine runs under a watchdog"},
-        "lean": ["NbioVerif.Properties.C18"], "drivers": ["stopdrv"], "harness": ["hstop"],
+        "lean": ["NbioVerif.Properties.C18"], "drivers": ["stopdrv"], "harness": ["hstop"], "cs": cs_stop.C18_CS,
         "runs": [STOP_RUN],
         "oracles": ["c18-"],
         "rule": "sim case = op sequence (add, gated new/release, close, eof, hold/release of the close callback, stop) on a "
@@ -164,7 +164,7 @@ PROPS = {
                     "c16_pinned_stale_counterexample documents the pinned behaviour",
             "technique": "Lean 4 proof (invariant over a transition system with ghost 'deadline in force') + differential "
                          "correspondence on real timers"},
-        "lean": ["NbioVerif.Properties.C16"], "drivers": ["dldrv"], "harness": ["hdeadline"],
+        "lean": ["NbioVerif.Properties.C16"], "drivers": ["dldrv"], "harness": ["hdeadline"], "cs": cs_stop.C16_CS,
         "runs": [DL_RUN],
         "oracles": ["c16-"],
         "rule": "case = op sequence with planned offsets (set/renew/clear/both, writes and flushes with scripted kernel "
